@@ -283,7 +283,7 @@ theorem schema_spec_up (g : Globals) (hg : g.dialect = .mysql) (hio : g.ignoreOr
           | true =>
             have := (has_iff dbO td.name).mp h
             exact absurd this ((find_none_iff dbO td.name).mp hfO)
-        obtain ⟨td', htd', hn', _, cs, is, hcs, his, hfs, hjc, hrun⟩ := created_table_spec g hg rc old new dbO dbN ho hn hpo hpn heo hen d hd
+        obtain ⟨td', htd', hn', _, cs, is, hcs, his, hfs, hjc, _, hrun⟩ := created_table_spec g hg rc old new dbO dbN ho hn hpo hpn heo hen d hd
           td.name tbN hfN hnew (hnofk tbN (List.mem_append_right _ (mem_of_find hfN)))
         have := huniq td' htd' td htd hn'
         subst this
